@@ -155,9 +155,9 @@ impl Check for C16 {
         vec![
             Phase { name: "all ordered pairs of the boundary label set", cases: n, exhaustive: true },
             Phase { name: "all triples of the boundary label set (transitivity)", cases: n * n, exhaustive: true },
-            Phase { name: "random pairs and triples of labels", cases: scale(if q { 200000 } else { 5000000 }, b), exhaustive: false },
+            Phase { name: "random pairs and triples of labels", cases: scale(if q { 600000 } else { 5000000 }, b), exhaustive: false },
             Phase { name: "registry label types: all pairs of decoded values (registered, private-use, text)", cases: 8, exhaustive: true },
-            Phase { name: "container monitor: BTreeSet order / membership and sort_by(cmp_canonical) of shuffled boundary sets", cases: scale(if q { 200 } else { 5000 }, b), exhaustive: false },
+            Phase { name: "container monitor: BTreeSet order / membership and sort_by(cmp_canonical) of shuffled boundary sets", cases: scale(if q { 600 } else { 5000 }, b), exhaustive: false },
         ]
     }
     fn run_case(&self, ctx: &mut Ctx, phase: usize, idx: u64) {
